@@ -153,6 +153,19 @@ def check_dml(prop_id, tier, seed):
     _gen_add(agg, stats)
     parts = [{"name": "dml", "scenarios": scen, "configs": cfgs}]
     models = ["MC_Dml"]
+    # REPLACE INTO / INSERT ... ON DUPLICATE KEY UPDATE (Engine!DoUpsert): all three properties speak about INSERT
+    s5, st5 = vc.gen_scenarios(prop_id, "MC_Upsert", "MC_Upsert.cfg", ec.ENGINE_DEPS, consts={"MaxDepth": {"quick": 3, "thorough": 5}[tier]}, workers=1)
+    _gen_add(agg, st5)
+    parts.append({"name": "upsert", "scenarios": s5, "configs": cfgs})
+    models.append("MC_Upsert")
+    if prop_id == "C09":
+        # the WHERE / SET grammar over three primary-key shapes (MC_Where): row selection of UPDATE / DELETE vs SELECT
+        for shape in ("pk1", "pk2", "nopk"):
+            s6, st6 = vc.gen_scenarios(prop_id, "MC_Where", "MC_Where.cfg", ec.ENGINE_DEPS,
+                                       consts={"MaxDepth": {"quick": 1, "thorough": 2}[tier], "Shape": '"%s"' % shape}, workers=1)
+            _gen_add(agg, st6)
+            parts.append({"name": "where_" + shape, "scenarios": [{"id": "%s-%s" % (x["id"], shape), "steps": x["steps"]} for x in s6], "configs": cfgs})
+        models.append("MC_Where")
     if prop_id in ("C10", "C11"):
         s2, st2 = vc.gen_scenarios(prop_id, "MC_Dml2", "MC_Dml2.cfg", ec.ENGINE_DEPS, consts={"MaxDepth": {"quick": 4, "thorough": 5}[tier]}, workers=1)
         _gen_add(agg, st2)
@@ -247,15 +260,16 @@ def check_c15(prop_id, tier, seed):
     d = {"quick": 6, "thorough": 7}[tier]
     dml, st2 = vc.gen_scenarios(prop_id, "MC_Dml", "MC_Dml.cfg", ec.ENGINE_DEPS, consts={"MaxDepth": d}, workers=1)
     txn, st3 = vc.gen_scenarios(prop_id, "MC_Txn", "MC_Txn.cfg", ec.ENGINE_DEPS, consts={"MaxDepth": {"quick": 5, "thorough": 6}[tier]}, workers=1)
+    ups, st4 = vc.gen_scenarios(prop_id, "MC_Upsert", "MC_Upsert.cfg", ec.ENGINE_DEPS, consts={"MaxDepth": {"quick": 3, "thorough": 5}[tier]}, workers=1)
     for k in ("states_generated", "distinct_states"):
-        stats[k] = stats.get(k, 0) + st2.get(k, 0) + st3.get(k, 0)
+        stats[k] = stats.get(k, 0) + st2.get(k, 0) + st3.get(k, 0) + st4.get(k, 0)
     cfgs = [IDX_CONFIGS["default"]]
     parts = [{"name": "idx", "scenarios": scen, "configs": cfgs}, {"name": "dml", "scenarios": dml, "configs": cfgs},
-             {"name": "txn", "scenarios": txn, "configs": cfgs}]
+             {"name": "txn", "scenarios": txn, "configs": cfgs}, {"name": "upsert", "scenarios": ups, "configs": cfgs}]
     wd = os.path.join(vc.RUN, "work_%s" % prop_id)
     verdict, events, _ = ec.run_parts(prop_id, parts, wd)
     return ec.finish(prop_id, tier, seed, t0, verdict, events, stats, owns=lambda b: b.get("what") in ("index", "panic"),
-                     configs=cfgs, extra_cov={"models": ["MC_Idx", "MC_Dml", "MC_Txn"]})
+                     configs=cfgs, extra_cov={"models": ["MC_Idx", "MC_Dml", "MC_Txn", "MC_Upsert"]})
 
 
 @prop("C16")
